@@ -135,6 +135,7 @@ class Gen:
         self.wide = set(wide)
         self.used = {}
         self.arr_n = 0
+        self.universe = None
 
     # ---- bookkeeping -----------------------------------------------------
     def reset(self):
@@ -153,6 +154,13 @@ class Gen:
 
     def take_port(self, t):
         k, w = t
+        if self.universe is not None:
+            names = [n for n, tt in self.universe.items() if tt == t]
+            if not names:
+                return None
+            n = self.r.choice(names)
+            self.used[n] = t
+            return n
         if k == "int":
             names = list(INT_PORTS)
         else:
@@ -168,6 +176,47 @@ class Gen:
             return self.r.choice(have)
         return None
 
+    def derived_leaf(self, t):
+        """no port of this type in the universe: derive one from a vector port (slice / view / resize / index / compare)"""
+        k, w = t
+        vecs = [(n, tt) for n, tt in (self.universe or {}).items() if tt[0] in ("u", "s", "bv")]
+        self.r.shuffle(vecs)
+        if k in ("u", "s", "bv"):
+            for n, tt in vecs:
+                if tt[1] == w:
+                    a = port_node(n, tt)
+                    attr, V = {"u": ("unsigned", "VwU"), "s": ("signed", "VwS"), "bv": ("bitvector", "VwBV")}[k]
+                    return Node(t, f"{a.py}.{attr}", f"(XView {V} {a.cq})", [a], tag=f"view:{tname(tt)}->{k}", key=f"view:{tt[0]}->{k}")
+            for n, tt in vecs:
+                if tt[1] > w:
+                    a = port_node(n, tt)
+                    lo = self.r.randint(0, tt[1] - w)
+                    sl = Node(("bv", w), f"{a.py}[{lo + w - 1}:{lo}]", f"(XSlice {a.cq} {lo + w - 1}%N {lo}%N)", [a], tag=f"slice:{tname(tt)}[{lo + w - 1}:{lo}]", key=f"slice:{tt[0]}")
+                    if k == "bv":
+                        return sl
+                    attr, V = {"u": ("unsigned", "VwU"), "s": ("signed", "VwS")}[k]
+                    return Node(t, f"{sl.py}.{attr}", f"(XView {V} {sl.cq})", [sl], tag=f"view:bv{w}->{k}", key=f"view:bv->{k}")
+            for n, tt in vecs:
+                if tt[1] < w and tt[0] == k and k in ("u", "s"):
+                    a = port_node(n, tt)
+                    return Node(t, f"{a.py}.resize({w})", f"(XResize {a.cq} {w}%N 0%N)", [a], tag=f"resize:{tname(tt)}->{w}z0", key=f"resize:{k}")
+            return None
+        if k == "bit" and vecs:
+            n, tt = vecs[0]
+            a = port_node(n, tt)
+            i = self.r.randrange(tt[1])
+            return Node(t, f"{a.py}[{i}]", f"(XIdxC {a.cq} {i}%N)", [a], tag=f"index:{tname(tt)}[{i}]", key=f"index_const:{tt[0]}")
+        if k == "bool":
+            for n, tt in list((self.universe or {}).items()):
+                if tt[0] in ("u", "s"):
+                    a = port_node(n, tt)
+                    z = self.r.randint(0, 1)
+                    return Node(t, f"({a.py} == {z})", f"(XCmp CEq {a.cq} (XConst KInt 0%N {cz(z)}))", [a, int_lit(z)], tag=f"eq:{tname(tt)},int", key=f"cmp:{tt[0]},int")
+                if tt[0] == "bit":
+                    a = port_node(n, tt)
+                    return Node(t, f"(not {a.py})", f"(XUn NNot {a.cq})", [a], tag="not:bit", key="not:bit")
+        return None
+
     def leaf(self, t, const_ok=True):
         k, w = t
         if k == "enum":
@@ -176,6 +225,10 @@ class Gen:
             return self.const(t)
         n = self.take_port(t)
         if n is None:
+            if self.universe is not None:
+                dl = self.derived_leaf(t)
+                if dl is not None:
+                    return dl
             if k == "int":
                 return int_lit(self.r.randint(0, 3))
             if k == "bool":
@@ -367,24 +420,33 @@ class Gen:
         return None
 
     def divisor(self, t, d):
-        """a divisor whose value is non-zero while all inputs are zero (the design must survive power-up in a concurrent
-        context); any other divisor marks the tree as 'risk' -> clocked variant only"""
+        """a run-time divisor is zero at power-up (all signals zero) and may glitch to zero while a concurrent design
+        settles; the VHDL semantics (like a simulator's assertion) makes that an error, so such trees are 'risk':
+        they are checked in a clocked context only.  A constant divisor is safe everywhere."""
         r = self.r
-        x = r.random()
-        if x < 0.45:
-            a = self.leaf(t, const_ok=False)
-            return Node(t, f"(~{a.py})", f"(XUn NInv {a.cq})", [a], tag=f"invert:{t[0]}{t[1]}", key=f"invert:{t[0]}")
-        if x < 0.6:
+        if r.random() < 0.3:
             lo, hi = (1, (1 << t[1]) - 1) if t[0] == "u" else srange(t[1])
             z = r.randint(lo, hi) or (hi if hi else lo)
             return const_node(t, z)
         a = self.gen(t, d)
+        if not a.ports:
+            a = self.leaf(t, const_ok=False)
         a.risk = True
         return a
 
+    def nonconst(self, n):
+        """selectors / indices / conditions are run-time objects"""
+        if n.ports:
+            return n
+        for _ in range(4):
+            m = self.leaf(n.ty, const_ok=False)
+            if m.ports:
+                return m
+        return n
+
     def ite(self, t, d):
         k, w = t
-        c = self.cond(d - 1)
+        c = self.nonconst(self.cond(d - 1))
         a = self.gen(t, d - 1)
         if k in ("u", "s") and self.r.random() < 0.4 and self.widths_le(w):
             b = self.gen((k, self.r.choice(self.widths_le(w))), d - 1)       # wider alternative first: joined at the wider width
@@ -407,7 +469,7 @@ class Gen:
             sw = r.choice([x for x in self.W if x <= 2] or [self.W[0]])
             st = (sk, sw)
             vals = list(range(*((srange(sw)[0], srange(sw)[1] + 1) if sk == "s" else (0, 1 << sw))))
-        s = self.gen(st, d - 1) if sk != "enum" else self.enum_leaf()
+        s = self.nonconst(self.gen(st, d - 1)) if sk != "enum" else self.enum_leaf()
         nkeys = r.randint(1, len(vals))
         keys = r.sample(vals, nkeys)
         has_default = nkeys < len(vals) or r.random() < 0.3
@@ -440,16 +502,20 @@ class Gen:
         n = r.choice([2, 3, 4])
         elems = [self.gen(t, min(d - 1, 1)) for _ in range(n)]
         if r.random() < 0.7:
-            idx = self.gen(("u", 2 if 2 in self.W else self.W[0]), d - 1)
+            idx = self.nonconst(self.gen(("u", 2 if 2 in self.W else self.W[0]), d - 1))
         else:
             idx = self.leaf(("int", 0))
             for p_ in idx.ports:
                 idx.restrict(p_, 0, n - 1)
+            if not idx.ports:
+                idx = int_lit(r.randrange(n))
         self.arr_n += 1
         name = f"arr{self.arr_n}"
         pre = (name, pyty(t), n, tuple(e.py for e in elems))
         nd = Node(t, f"{name}[{idx.py}]", f"(XIdx (XArr [{'; '.join(e.cq for e in elems)}]) {idx.cq})", elems + [idx],
                   tag=f"array_read:{tname(t)}x{n}[{tname(idx.ty)}]", key=f"array_read:{t[0]}", pre=[pre], dims={"array"})
+        if idx.kids and idx.ty[0] == "u" and (1 << idx.ty[1]) > n:
+            nd.risk = True      # a computed index may glitch out of range while a concurrent design settles
         return nd
 
     # ---- BitVector -------------------------------------------------------------
@@ -518,16 +584,20 @@ class Gen:
         if p == "idx":
             w0 = r.choice(self.W)
             a = self.vec_any(w0, d - 1)
+            a = self.nonconst(a)
             if r.random() < 0.75:
-                i = self.gen(("u", r.choice([x for x in self.W if x <= 2] or [self.W[0]])), d - 1)
+                i = self.nonconst(self.gen(("u", r.choice([x for x in self.W if x <= 2] or [self.W[0]])), d - 1))
             else:
                 i = self.leaf(("int", 0))
                 for p_ in i.ports:
                     i.restrict(p_, 0, w0 - 1)
                 if not i.ports:
                     i = int_lit(r.randrange(w0))
-            return Node(t, f"{a.py}[{i.py}]", f"(XIdx {a.cq} {i.cq})", [a, i], tag=f"index:{tname(a.ty)}[{tname(i.ty)}]",
-                        key=f"index_runtime:{a.ty[0]},{i.ty[0]}", dims={"runtime_index"})
+            nd = Node(t, f"{a.py}[{i.py}]", f"(XIdx {a.cq} {i.cq})", [a, i], tag=f"index:{tname(a.ty)}[{tname(i.ty)}]",
+                      key=f"index_runtime:{a.ty[0]},{i.ty[0]}", dims={"runtime_index"})
+            if i.kids and i.ty[0] == "u" and (1 << i.ty[1]) > w0:
+                nd.risk = True      # a computed index may glitch out of range while a concurrent design settles
+            return nd
         if p == "ite":
             return self.ite(t, d)
         if p == "sel":
@@ -661,19 +731,16 @@ def systematic(W, rng, thorough):
             for sym, C in Gen.CMPS:
                 x, y = a(), b()
                 out.append((g, Node(("bool", 1), f"({x.py} {sym} {y.py})", f"(XCmp {C} {x.cq} {y.cq})", [x, y], tag=f"{C[1:].lower()}:{k}{wa},{k}{wb}", key=f"cmp:{k},{k}")))
-            # division family: concurrent with an inverted divisor port, clocked with the plain port
+            # division family: run-time divisor -> clocked design
             for nm, B in (("div", "BTruncDiv"), ("mod", "BMod"), ("rem", "BRem")):
                 w = wa if nm == "div" else wb
-                for plain in (False, True):
-                    x, y = a(), b()
-                    if not plain:
-                        y = Node(Bn, f"(~{y.py})", f"(XUn NInv {y.cq})", [y], tag=f"invert:{k}{wb}", key=f"invert:{k}")
-                    forms = {"div": [f"op.truncdiv({x.py}, {y.py})"] + ([f"({x.py} // {y.py})"] if k == "u" else []),
-                             "mod": [f"({x.py} % {y.py})"], "rem": [f"op.rem({x.py}, {y.py})"]}[nm]
-                    for f in forms:
-                        nd = Node((k, w), f, f"(XBin {B} {x.cq} {y.cq})", [x, y], tag=f"{nm}:{k}{wa},{k}{wb}" + ("/floordiv" if "//" in f else ""), key=f"{nm}:{k},{k}")
-                        nd.risk = plain
-                        out.append((g + (":divc" if plain else ":div"), nd))
+                x, y = a(), b()
+                forms = {"div": [f"op.truncdiv({x.py}, {y.py})"] + ([f"({x.py} // {y.py})"] if k == "u" else []),
+                         "mod": [f"({x.py} % {y.py})"], "rem": [f"op.rem({x.py}, {y.py})"]}[nm]
+                for f in forms:
+                    nd = Node((k, w), f, f"(XBin {B} {x.cq} {y.cq})", [x, y], tag=f"{nm}:{k}{wa},{k}{wb}" + ("/floordiv" if "//" in f else ""), key=f"{nm}:{k},{k}")
+                    nd.risk = True
+                    out.append((g + ":divc", nd))
         for w in W:
             T = (k, w)
             a = lambda: P(f"{n1}{w}", T)
@@ -700,10 +767,11 @@ def systematic(W, rng, thorough):
                         f = {"div": f"op.truncdiv({x.py}, {i.py})", "mod": f"({x.py} % {i.py})", "rem": f"op.rem({x.py}, {i.py})"}[nm]
                         out.append((g, Node(T, f, f"(XBin {B} {x.cq} {i.cq})", [x, i], tag=f"{nm}:{k}{w},int", key=f"{nm}:{k},int")))
                 for nm, B in (("div", "BTruncDiv"), ("mod", "BMod"), ("rem", "BRem")):
-                    x, i = a(), int_lit(z)
-                    y = Node(T, f"(~{x.py})", f"(XUn NInv {x.cq})", [x], tag=f"invert:{k}{w}", key=f"invert:{k}")
+                    y, i = a(), int_lit(z)
                     f = {"div": f"op.truncdiv({i.py}, {y.py})", "mod": f"({i.py} % {y.py})", "rem": f"op.rem({i.py}, {y.py})"}[nm]
-                    out.append((g + ":div", Node(T, f, f"(XBin {B} {i.cq} {y.cq})", [i, y], tag=f"{nm}:int,{k}{w}", key=f"{nm}:int,{k}")))
+                    nd = Node(T, f, f"(XBin {B} {i.cq} {y.cq})", [i, y], tag=f"{nm}:int,{k}{w}", key=f"{nm}:int,{k}")
+                    nd.risk = True
+                    out.append((g + ":divc", nd))
             # run-time int operand (an int input port)
             pn = "n" if k == "u" else "m"
             plo, phi = INT_PORTS[pn]
@@ -1028,20 +1096,37 @@ class Design:
 
 def bundle(items, rng, wide=()):
     """items: [(group, node)] -> lists of nodes sharing a design: same port set, same context kind; a division (whose undefined
-    valuations are excluded for the whole design) never shares a design with anything but divisions by the same divisor"""
+    valuations are excluded for the whole design) only shares a design with divisions by the same divisor"""
     groups = {}
     for g, n in items:
         divs = tuple(sorted({k.kids[1].py for k in walk(n) if k.tag.split(":")[0] in ("div", "mod", "rem") and len(k.kids) == 2
                              and k.kids[1].ports}))
-        key = (tuple(sorted(n.ports.items())), n.risk, divs, tuple(sorted(n.cons.items())))
+        key = (tuple(sorted(n.ports.items())), n.risk, divs)
         groups.setdefault(key, []).append(n)
+    # merge the division-free groups into port universes of at most MERGE_BITS input bits (first fit, widest first)
+    merged = []
+    for key, ns in sorted(groups.items(), key=lambda kv: -alpha_bits(dict(kv[0][0]), wide)):
+        for m in merged:
+            if (m[0][1], m[0][2]) != (key[1], key[2]):
+                continue
+            ports = dict(m[1])
+            ports.update(dict(key[0]))
+            if alpha_bits(ports, wide) <= MERGE_BITS and len(m[2]) + len(ns) <= 48:
+                m[1] = ports
+                m[2] += ns
+                break
+        else:
+            merged.append([key, dict(key[0]), list(ns)])
     out = []
-    for key, ns in groups.items():
-        bits = alpha_bits(dict(key[0]), wide)
-        per = 24 if bits <= 4 else 12
+    for key, ports, ns in merged:
+        bits = alpha_bits(ports, wide)
+        per = 64 if bits <= 4 else 48
         for i in range(0, len(ns), per):
             out.append((key, ns[i:i + per]))
     return out
+
+
+MERGE_BITS = 6.5
 
 
 def walk(n):
@@ -1064,13 +1149,21 @@ def make_case(ck, d: Design, vhdl, wide):
 
 
 def prove(ck, cases, count_first=2):
-    """write + prove; returns [(case, status, info)] with status ok | unparsed | failed (no reporting)"""
+    """write + prove; returns [(case, status, info)] with status ok | unparsed | failed (no reporting).  The case file of a
+    single-expression design also prints the verdict of a breadth-first search and both traces on its counter-example, so a
+    failure needs no second Coq run."""
     ready, res = [], []
     for i, c in enumerate(cases):
         ck.evaluations += 1
-        c.count = i < count_first
+        single = len(c.design_obj.nodes) == 1
+        c.count = i < count_first and not single
         try:
             X.write_case(ck, c)
+            if single:
+                src = open(c.path).read()
+                k = src.index("Theorem case_ok")
+                with open(c.path, "w") as f:
+                    f.write(src[:k] + X.DIAG_TMPL.format(mid="false", fuel=c.fuel) + src[k:])
             ready.append(c)
         except R.Unparsed as e:
             res.append((c, "unparsed", {"log": str(e)}))
@@ -1078,7 +1171,25 @@ def prove(ck, cases, count_first=2):
             res.append((c, "unparsed", {"log": "unresolved identifier " + str(e)}))
     outs = common.coqc_many([c.path for c in ready], timeout=2400)
     for c, (rc, out, err) in zip(ready, outs):
-        st, info = X.classify(rc, out, err)
+        os_ = common.coq_outputs(out)
+        verdicts = [(i, o) for i, o in enumerate(os_) if o.startswith(("VOk", "VCex", "VFuel"))]
+        info = {}
+        if rc == 0:
+            st = "ok"
+            nums = [0, 0]
+            for _, o in verdicts:
+                if o.startswith("VOk"):
+                    nums = [int(x) for x in o.replace("%N", "").split()[1:3]]
+            info = {"states": nums[0], "transitions": nums[1]}
+        else:
+            st = "failed"
+            info = {"log": (out + err)[-1500:]}
+            for i, o in verdicts:
+                if o.startswith("VCex"):
+                    info = {"diag": "cex", "path": o, "traces": os_[i + 1] if i + 1 < len(os_) else ""}
+                    break
+                if o.startswith("VFuel"):
+                    info = {"diag": "fuel"}
         res.append((c, st, info))
     return res
 
@@ -1120,45 +1231,32 @@ def run(ck: common.Check, replay=None):
                 k += 1
         for j, nd in enumerate(candidates(W if not thorough else [1, 2, 3])):
             designs.append(Design(f"cand{j:03d}", [nd], False))
-        # random trees
-        ntrees = 160 if not thorough else 1500
+        # random trees: a port universe (<= ~7 input bits) per pack, several trees per design
+        npacks = 18 if not thorough else 150
+        per_pack = 9 if not thorough else 10
         G = Gen(rng, W, max_bits=7.2, wide=wide)
         roots = [("bool", 1), ("bit", 1), ("int", 0)] + [(kk, w) for kk in ("u", "s", "bv") for w in sorted(set(W) | {4, 5, 6} if not thorough else set(W) | {5, 6})]
-        trees = []
-        for j in range(ntrees):
-            G.reset()
-            t = rng.choice(roots)
-            d = rng.choice([2, 3, 3] if not thorough else [2, 3, 4, 4])
-            nd = None
-            for _ in range(20):
-                G.reset()
-                nd = G.gen(t, d)
-                if nd.kids and all(lo <= hi for lo, hi in nd.cons.values()):
-                    break
-            if nd is None or not nd.kids:
-                continue
-            trees.append(nd)
-        # pack trees over disjoint-or-equal port sets: group greedily while the alphabet stays <= 4096
-        packs = []
-        for nd in trees:
-            clocked = nd.risk or rng.random() < 0.25
-            placed = False
-            for pk in packs:
-                if pk["clocked"] != clocked or len(pk["nodes"]) >= 6 or (nd.risk and pk["risk"]):
+        for j in range(npacks):
+            uni = random_universe(rng, W, wide)
+            G.universe = uni
+            safe, risky = [], []
+            for _ in range(per_pack):
+                t = rng.choice(roots)
+                d = rng.choice([2, 3, 3] if not thorough else [2, 3, 4, 4])
+                nd = None
+                for _try in range(20):
+                    G.reset()
+                    nd = G.gen(t, d)
+                    if nd.kids and nd.ports and all(lo <= hi for lo, hi in nd.cons.values()):
+                        break
+                    nd = None
+                if nd is None:
                     continue
-                ports = dict(pk["ports"])
-                ports.update(nd.ports)
-                if any(pk["ports"].get(p, t_) != t_ for p, t_ in nd.ports.items()):
-                    continue
-                if alpha_bits(ports, wide) <= 7.2 and not (nd.risk or pk["risk"]):
-                    pk["nodes"].append(nd)
-                    pk["ports"] = ports
-                    placed = True
-                    break
-            if not placed:
-                packs.append({"clocked": clocked, "nodes": [nd], "ports": dict(nd.ports), "risk": nd.risk})
-        for j, pk in enumerate(packs):
-            designs.append(Design(f"tree{j:04d}", pk["nodes"], pk["clocked"]))
+                (risky if nd.risk else safe).append(nd)
+            if safe:
+                designs.append(Design(f"tree{j:04d}", safe, rng.random() < 0.25))
+            for i in range(0, len(risky), 3):
+                designs.append(Design(f"tree{j:04d}r{i}", risky[i:i + 3], True))
     ph = os.environ.get("C02_PHASES")
     if ph and replay is None:
         designs = [d for d in designs if any(d.name.startswith(x) for x in ph.split(","))]
@@ -1179,6 +1277,30 @@ def run(ck: common.Check, replay=None):
                        "valuations where a sub-expression is undefined (division by zero, index out of range) are excluded (exprs_defined)",
                        "int operands next to a vector are representable at the vector's width (out-of-range ints are the isolated candidates)",
                        "concurrent designs with a division use a divisor that is non-zero at power-up (all inputs zero); plain divisors are checked in clocked designs"]
+
+
+def random_universe(rng, W, wide):
+    """a few input ports of mixed types whose valuations can be enumerated (|alphabet|^2 transitions are explored)"""
+    uni = {}
+    pool = [("x", ("bit", 1)), ("y", ("bit", 1)), ("p", ("bool", 1)), ("q", ("bool", 1)), ("n", ("int", 0)), ("m", ("int", 0))]
+    for k, names in (("u", "ab"), ("s", "st"), ("bv", "vw")):
+        for w in W:
+            for nm in names:
+                pool.append((f"{nm}{w}", (k, w)))
+    rng.shuffle(pool)
+    # at least one numeric vector
+    first = next(x for x in pool if x[1][0] in ("u", "s"))
+    uni[first[0]] = first[1]
+    for nm, t in pool:
+        if nm in uni:
+            continue
+        trial = dict(uni)
+        trial[nm] = t
+        if alpha_bits(trial, wide) <= 7.2:
+            uni = trial
+        if len(uni) >= 4:
+            break
+    return uni
 
 
 def alpha_bits(ports, wide):
@@ -1288,7 +1410,8 @@ def report(ck, c, st, info):
     if st == "unparsed":
         ck.violation({"op": n.key, "outcome": "unparsed"}, "emitted VHDL left the parsed subset: " + info.get("log", ""), rep, no_input=True)
         return
-    st2, info2 = X.diagnose(c)
+    st2 = info.get("diag", "error")
+    info2 = {k: v for k, v in info.items() if k != "diag"}
     rep.update(info2)
     rep["status"] = st2
     emitted = [l.strip() for l in c.vhdl.split("\n") if "<=" in l or ":=" in l]
